@@ -199,7 +199,7 @@ NO_TUPLE = {'series_assign', 'frame_assign', 'concat_resolved', 'from_records', 
 NO_NAN_LABEL = {'indexgo_append'}
 
 
-def mk_site(site, arr_name, tier='quick', bigint_only=False, bool_only=False):
+def mk_site(site, arr_name, tier='quick', bigint_only=False, bool_only=False, numeric_only=False):
     cells, dt = ARRAYS[arr_name]
 
     def body(env, kind, v, b):
@@ -211,8 +211,8 @@ def mk_site(site, arr_name, tier='quick', bigint_only=False, bool_only=False):
             k = 'int'      # tuples only where the interface takes a single element
         if k in ('nan', 'none') and site in NO_NAN_LABEL:
             k = 'int'
-        if k == 'int' and arr_name == 'int64' and site == 'indexgo_append':
-            v = v * 0 + 99   # labels must stay unique
+        if k == 'int' and arr_name in ('int64', 'float64', 'bool') and site == 'indexgo_append':
+            v = v * 0 + 99   # labels must stay unique (3 == 3.0, 1 == True)
         if k == 'bool' and site == 'indexgo_append':
             k = 'str'        # True == 1 as a label is ambiguous with int labels: outside
         elem, ref_elem = element(env, k, v, b)
@@ -231,7 +231,13 @@ def mk_site(site, arr_name, tier='quick', bigint_only=False, bool_only=False):
         pre = ['kind == 2']
     if bool_only:
         pre = ['kind == 0']
-    return Cond(f'site_{site}_{arr_name}' + ('_bigint' if bigint_only else '') + ('_bool' if bool_only else ''), [('kind', 'int'), ('v', 'int'), ('b', 'bool')], body, pre=pre,
+    # F19 seen from the other side: a bool column receiving a number in the same iterable (kinds int, bigint, nan, tuple->int)
+    f19b = site == 'from_records' and arr_name == 'bool'
+    if f19b and not numeric_only:
+        pre.append('kind not in (1, 2, 3, 6)')
+    if numeric_only:
+        pre = ['kind in (1, 2, 3, 6)']
+    return Cond(f'site_{site}_{arr_name}' + ('_bigint' if bigint_only else '') + ('_bool' if bool_only else '') + ('_numeric' if numeric_only else ''), [('kind', 'int'), ('v', 'int'), ('b', 'bool')], body, pre=pre,
             ranges={'kind': (0, len(ELEM_KINDS) - 1), 'v': (-(2 ** 53), 2 ** 53)},
             functions=[],
             bounds=f'existing array dtype {dt} ({cells}); supplied element kind symbolic over {ELEM_KINDS} (int value symbolic within +-2**53, big int = 2**60+1, str = "wxyz" longer than the array width)',
@@ -247,6 +253,8 @@ for _s, _a in QUICK_SITES:
 _add(mk_site('shift', 'float64', bigint_only=True))
 _add(mk_site('fillna', 'int64', bigint_only=True))
 _add(mk_site('from_records', 'int64', bool_only=True))
+_add(mk_site('from_records', 'float64', bool_only=True, tier='thorough'))
+_add(mk_site('from_records', 'bool', numeric_only=True, tier='thorough'))
 for _s in SITES:
     for _a in ARRAYS:
         c = mk_site(_s, _a, tier='thorough')
